@@ -656,6 +656,16 @@ def c20_production_metrics(work, rep, tier, seed):
         for e in rets:
             hist[e["v"]] = hist.get(e["v"], 0) + 1
     rep.cov["production_binary_runs_scraped"] = n
+    # start-up is not an update request: the binary started on databases earlier incarnations left (cosigned by both keys, by the legacy key only,
+    # by a key rotated away since, with a cosignature time in the future, with foreign signature lines) counts nothing and serves the file's bytes
+    sp = work.path("prod-start.ndjson")
+    o, dt = run_driver(["prod-start", "-bin", binp, "-out", sp, "-seed", str(seed), "-dir", work.sub("db")])
+    rep.notes.append("metrics after start-up/" + o.strip())
+    sevs = read_ndjson(sp)
+    fails = opsfam.hist_judge(work, rep, sp, 2, name="hist-start")
+    settle(rep, "C20", fails, sevs, dict(opsfam.OPS_BASE), extra_replay={"kind": "production binary started on a database an earlier incarnation left"})
+    rep.cov["start_ups_on_existing_databases_scraped"] = sum(1 for e in sevs if e.get("e") == "metrics")
+    rep.cov["evaluations"] += rep.cov["start_ups_on_existing_databases_scraped"]
     rep.cov["traces_validated_against_impl"] += n
 
 # ----------------------------------------------------------------------------- C16
